@@ -108,7 +108,8 @@ def gen(rng, tier):
                 kwargs[f"k{j}"] = L.gen_fill(rng)
         items.append({"kind": "valid", "label": label, "form": form, "body": body, "raise_line": raise_line,
                       "sends": sends, "nrecv": nrecv, "has_close": has_close, "kwargs": kwargs,
-                      "lead": rng.randrange(0, 6), "defaults": rng.random() < 0.3, "nested": form == "function" and rng.random() < 0.2})
+                      "lead": rng.randrange(0, 6), "defaults": rng.random() < 0.3, "nested": form == "function" and rng.random() < 0.2,
+                      "sig": rng.choice(["plain", "plain", "posonly", "kwonly", "varkw"])})
     return {"gateways": specs, "actors": [{"side": "i", "gw": gwi, "chan": None, "ops": [["c06_script"], ["terminate", 10.0]]}],
             "knobs": knobs, "strategy": L.gen_strategy(rng), "preempt": [],
             "preempt_at": L.gen_preempt_at(rng, ["remote_exec", "executetask", "_local_schedulexec", "close", "_channel_exec"],
@@ -148,7 +149,15 @@ def load_module(path, name):
 
 def write_function_module(d, name, it):
     lines = ["# generated by the C06 check"] + ["#"] * it["lead"]
-    params = "channel" + "".join(f", {k}" + ("=None" if it["defaults"] else "") for k in it["kwargs"])
+    # signature shapes: plain, positional-only channel, keyword-only arguments, **kwargs catch-all
+    sig = it.get("sig", "plain")
+    if sig == "varkw" and it["kwargs"]:
+        params = "channel, **kw"
+    else:
+        sep = {"plain": "", "posonly": ", /", "kwonly": ", *"}.get(sig, "")
+        if sep == ", *" and not it["kwargs"]:
+            sep = ""
+        params = "channel" + sep + "".join(f", {k}" + ("=None" if it["defaults"] else "") for k in it["kwargs"])
     indent = "    "
     if it["nested"]:
         lines.append("def outer():")
@@ -158,7 +167,10 @@ def write_function_module(d, name, it):
     lines.append(f"{indent2}def body({params}):")
     first_body_line = len(lines) + 1
     body = list(it["body"])
-    body.insert(2, "_b.note('kwargs', %r, {%s})" % (it["label"], ", ".join(f"'{k}': _b.canon({k})" for k in it["kwargs"])))
+    if sig == "varkw" and it["kwargs"]:
+        body.insert(2, "_b.note('kwargs', %r, {k_: _b.canon(v_) for k_, v_ in kw.items()})" % (it["label"],))
+    else:
+        body.insert(2, "_b.note('kwargs', %r, {%s})" % (it["label"], ", ".join(f"'{k}': _b.canon({k})" for k in it["kwargs"])))
     for b in body:
         lines.append(f"{indent2}{indent}{b}")
     if it["nested"]:
